@@ -121,3 +121,22 @@ def drive_substrate(insts, limit=60):
     recs = vlib.read_ndjson(dst)
     shutil.rmtree(sc, ignore_errors=True)
     return recs
+
+
+def design_mc(res, module, cfg, trace_file=None, what="", workers=8, timeout=1200, env=None):
+    """design-level model checking of a specification machine (invariants / temporal properties of the cfg); a violated
+    property of the DESIGN is reported as a violation of clause DesignLevel_<module>."""
+    e = dict(env or {})
+    if trace_file:
+        e["TRACE_FILE"] = trace_file
+    r = vlib.run_tlc(module, cfg, env=e, workers=workers, timeout=timeout, heap="4g")
+    ok = vlib.tlc_ok(r)
+    res.add_tlc(r)
+    res.mc.append({"module": module, "config": cfg, "what": what, "distinct_states": r["distinct"], "states": r["states"], "ok": ok})
+    if not ok:
+        if "violated" in r["stdout"] or "Invariant" in r["stdout"]:
+            res.violation("DesignLevel_" + module, {"id": module, "tlc": r["stdout"][-2500:]})
+        else:
+            raise vlib.Machinery(f"{module}/{cfg} failed: " + r["stdout"][-1500:])
+    res.clause("DesignLevel_" + module, 1, 0 if ok else 1)
+    return ok
